@@ -127,6 +127,7 @@ class GeneData(object):
             sep="\t",
             index_col="Gene_Name",
             dtype={
+                "Gene_Name": str,
                 "Start": "float64",
                 "Stop": "float64",
                 "Length": "float64",
